@@ -497,6 +497,23 @@ fn jobs(tier: Tier) -> Vec<C04Job> {
                 }
                 // a workload ending in an operation other than wait adds nothing over its prefix + in-flight crash points
                 for (policy, bound) in plan.iter() {
+                    // Two flushers (keys 1 and 2 go to different ones, their blocks interleave in sequence order):
+                    // under the schedule that also runs the second crash/restart cycle.
+                    if matches!(policy, Eager) && tomb {
+                        let mut cfg2 = cfg.clone();
+                        cfg2.flushers = 2;
+                        cfg2.buffer_pool_size = 128 * 1024;
+                        v.push(C04Job {
+                            cfg: cfg2,
+                            prog: prog.clone(),
+                            policy: *policy,
+                            bound: 0,
+                            seconds: vec![
+                                vec![HOp::Ins { k: 1, sz: 100, loc: Loc::Default }, HOp::Fill { n: 1 }, HOp::Wait],
+                                vec![HOp::Ins { k: 2, sz: 100, loc: Loc::Default }, HOp::Fill { n: 1 }, HOp::Wait],
+                            ],
+                        });
+                    }
                     v.push(C04Job {
                         cfg: cfg.clone(),
                         prog: prog.clone(),
